@@ -380,7 +380,18 @@ inline bool progress_S(Rng& r, uint64_t idx)
       if (r.chance(1, 2)) run.poll();
     }
     // quiescence: everything consumed
-    if (!run.drain("progress_S")) { ok = false; break; }
+    if (!run.drain("progress_S"))
+    {
+      if (run.no_progress && !a.w->parked())
+      {
+        // the backend polls but does not consume what this thread queued: a call that needs the room waits for ever
+        uint32_t const len = static_cast<uint32_t>(kMaxPayload);
+        if (!run.run_on(a, [wp, ap, len] { bool threw; log_maybe_throw(ap->issues, wp->loggers[0].lg, 0, ap->tid, ap->seq++, len, threw); }, "log-near-capacity"))
+          violation("C09", "blocked-call-never-resumes-backend-does-not-consume-what-is-ahead", J{}.unum("tid", a.tid).unum("encoded_size", len + kOverhead).unum("limit", kLimit).str("family", "progress_S").raw("cfg", w.describe()));
+      }
+      ok = false;
+      break;
+    }
     // a statement of (almost) the full capacity: encoded size in (limit - 80, limit]
     uint32_t len = static_cast<uint32_t>(kMaxPayload - r.below(std::min<size_t>(kMaxPayload, 80)));
     if (r.chance(1, 4)) len = static_cast<uint32_t>(kMaxPayload);
